@@ -15,6 +15,7 @@ Definition l2_saving_Q (S1 : nat -> Q) (s : nat) (e : nat) : Q := ((((S1 e) - (S
 (* no Q twin for capa_penalty: transcendental in Q *)
 (* no Q twin for dense_mvcapa_penalty: transcendental in Q *)
 (* no Q twin for sparse_mvcapa_penalty: transcendental in Q *)
+(* no Q twin for intermediate_penalty_curve: transcendental in Q *)
 (* no Q twin for pelt_default_penalty: transcendental in Q *)
 (* no Q twin for sbs_default_threshold: transcendental in Q *)
 (* no Q twin for mw_default_threshold: transcendental in Q *)
